@@ -1,5 +1,5 @@
 From Coq Require Import List Arith Bool String.
-From Wire Require Import Sets Acyclic Solve Names Front Exec Model Emit Cli CopyAst ModelThms Bridge.
+From Wire Require Import Sets Acyclic Solve Names Front Exec Model Emit Cli CopyAst ModelThms NamesThms Bridge.
 Import ListNotations.
 
 (* The property theorems.  This file contains nothing but statements closed by [exact lemma] and the
@@ -341,3 +341,29 @@ Theorem C11_shared_instance : forall pm t pv v,
   pm t = Some pv -> conc pv <> t -> val pm (conc pv) v -> val pm t v.
 Proof. exact val_alias. Qed.
 Print Assumptions C11_shared_instance.
+
+(* ------------------------------------------------------------------ C14 (pairwise distinct names) *)
+(* in every generated injector the parameter names, local names and cleanup names are pairwise distinct, none
+   of them is the error variable, and the error variable is outside the file scope (package scope, universe,
+   import names, value variables) known when the pass starts -- for every call list, every parameter list
+   (named, blank, missing) and every file scope *)
+Theorem C14_names_distinct : forall E inj (cs : list call) g,
+  exists ig, names_ok ig /\ List.length (ig_params ig) = List.length (i_params inj) /\
+             ig_err ig = disamb_in (file_names E g) "err"%string /\ ~ In (ig_err ig) (file_names E g).
+Proof. exact inject_pass_names_distinct. Qed.
+Print Assumptions C14_names_distinct.
+
+Theorem C14_invented_names_fresh : forall bad names d tr,
+  ~ In (tvn_in bad names d tr) bad /\ is_keyword (tvn_in bad names d tr) = false.
+Proof. exact tvn_in_fresh. Qed.
+Print Assumptions C14_invented_names_fresh.
+
+(* ------------------------------------------------------------------ C05 (reported) *)
+(* conversely: when the parameters, what the accepted nested sets provide, and the set's own providers / values /
+   fields do not have pairwise distinct types, buildProviderMap fails with a multiple-bindings error *)
+Theorem C05_conflict_is_reported : forall (A : Type) (ip bp : nat -> A -> A) (a : list (nat * A))
+    (ms : list (nat * pmap A)) (d : list (nat * A)) b,
+  ~ NoDup (map fst a ++ List.concat (map (fun im => keys (snd im)) ms) ++ map fst d) ->
+  exists es k, build1 ip bp a ms d b = inr es /\ In (SMulti k) es.
+Proof. exact build1_reports. Qed.
+Print Assumptions C05_conflict_is_reported.
